@@ -22,16 +22,16 @@ import (
 )
 
 type Coverage struct {
-	States       int64  `json:"states"`
-	Transitions  int64  `json:"transitions"`
-	TracesImpl   int64  `json:"traces_validated_against_impl"`
-	Evaluations  int64  `json:"evaluations"`
-	DistinctNT   int64  `json:"distinct_nontrivial"`
-	Rule         string `json:"rule"`
-	Samples      []any  `json:"samples"`
-	Exhaustive   bool   `json:"exhaustive"`
-	Explanation  string `json:"explanation,omitempty"`
-	Extra        map[string]any `json:"-"`
+	States      int64          `json:"states"`
+	Transitions int64          `json:"transitions"`
+	TracesImpl  int64          `json:"traces_validated_against_impl"`
+	Evaluations int64          `json:"evaluations"`
+	DistinctNT  int64          `json:"distinct_nontrivial"`
+	Rule        string         `json:"rule"`
+	Samples     []any          `json:"samples"`
+	Exhaustive  bool           `json:"exhaustive"`
+	Explanation string         `json:"explanation,omitempty"`
+	Extra       map[string]any `json:"-"`
 }
 
 func (c Coverage) MarshalJSON() ([]byte, error) {
